@@ -293,3 +293,35 @@ thread_local! {
 pub fn last_timeout_syscall() -> String {
     LAST_TIMEOUT_SYSCALL.with(|c| c.borrow().clone())
 }
+
+/// Exit status of a child whose SIGSEGV handler found the instruction pointer at 0 or 1: the
+/// program *called* `SIG_DFL` / `SIG_IGN` as if it were a function.
+pub const EXIT_CALLED_DFL_IGN: i32 = 97;
+
+extern "C" fn segv_probe(_sig: libc::c_int, _info: *mut libc::siginfo_t, ctx: *mut libc::c_void) {
+    #[cfg(target_arch = "x86_64")]
+    unsafe {
+        let uc = ctx as *mut libc::ucontext_t;
+        let rip = (*uc).uc_mcontext.gregs[libc::REG_RIP as usize] as u64;
+        if rip <= 1 {
+            libc::_exit(EXIT_CALLED_DFL_IGN);
+        }
+    }
+    let _ = ctx;
+    // anything else: die of the fault as usual (returning re-executes the faulting instruction)
+    unsafe {
+        let mut sa: libc::sigaction = std::mem::zeroed();
+        sa.sa_sigaction = libc::SIG_DFL;
+        libc::sigaction(libc::SIGSEGV, &sa, std::ptr::null_mut());
+    }
+}
+
+/// Child side: make "SIG_DFL / SIG_IGN was called as a function" a distinguishable ending.
+pub fn install_segv_probe() {
+    unsafe {
+        let mut sa: libc::sigaction = std::mem::zeroed();
+        sa.sa_sigaction = segv_probe as usize;
+        sa.sa_flags = libc::SA_SIGINFO | libc::SA_NODEFER;
+        libc::sigaction(libc::SIGSEGV, &sa, std::ptr::null_mut());
+    }
+}
